@@ -100,9 +100,17 @@ type Case struct {
 	// Cycles: 1 (default) or 2 = the whole history incl. Finalise is executed twice on the same store (a second
 	// rollout over the restored object)
 	Cycles int `json:"cycles,omitempty"`
+	// Delete: the USER deletes one referenced object during the history (after the AfterOp-th EnsureRoutes call;
+	// AfterOp == len(Ops) means right before Finalise). The remaining refs must still be restored exactly.
+	Delete *DeleteOp `json:"delete,omitempty"`
 	// FixpointOnly: replay of a C15/fixpoint, istio or reference witness: Ops has one element which is iterated
 	// from the fresh store.
 	FixpointOnly bool `json:"fixpointOnly,omitempty"`
+}
+
+type DeleteOp struct {
+	Ref     int `json:"ref"`     // index into World.Refs
+	AfterOp int `json:"afterOp"` // number of EnsureRoutes calls executed before the deletion
 }
 
 // ---------------------------------------------------------------------------------------------------
@@ -226,6 +234,15 @@ func (e *env) get(i int) *unstructured.Unstructured {
 		return nil
 	}
 	return o
+}
+
+// userDelete removes the object of ref i the way a user would (not counted as a provider write).
+func (e *env) userDelete(i int) bool {
+	o := e.get(i)
+	if o == nil {
+		return false
+	}
+	return e.cli.Client.Delete(context.TODO(), o) == nil
 }
 
 // dump renders every referenced object completely (including resourceVersion): "the store".
@@ -880,11 +897,15 @@ func (rn *runner) checkIstio(s *v1beta1.TrafficRoutingStrategy, i int, orig, now
 
 // runHistory executes ops (one EnsureRoutes call each), optionally converges the last one, then Finalise twice;
 // with cycles == 2 the same is repeated on the same store. Returns whether the provider wrote anything.
-func (rn *runner) runHistory(ops []v1beta1.TrafficRoutingStrategy, converge bool, cycles int) (wrote bool) {
-	if cycles < 1 {
+func (rn *runner) runHistory(ops []v1beta1.TrafficRoutingStrategy, converge bool, cycles int, del *DeleteOp) (wrote bool) {
+	if cycles < 1 || del != nil {
 		cycles = 1
 	}
 	c := rn.mkCaseN(ops, converge, false, cycles)
+	if del != nil {
+		d := *del
+		c.Delete = &d
+	}
 	e, err := newEnv(rn.w)
 	if err != nil {
 		panic(err)
@@ -915,8 +936,19 @@ func (rn *runner) runHistory(ops []v1beta1.TrafficRoutingStrategy, converge bool
 // runCycle returns (wrote, completed).
 func (rn *runner) runCycle(e *env, c *Case, ops []v1beta1.TrafficRoutingStrategy, converge bool, cy int) (wrote bool, completed bool) {
 	cls := rn.worldClass()
-	rn.trace("history %s converge=%v cycle=%d", opsName(ops), converge, cy)
+	rn.trace("history %s converge=%v cycle=%d delete=%s", opsName(ops), converge, cy, lib.J(c.Delete))
 	var last callRes
+	deleted := -1
+	userDelete := func(after int) {
+		if c.Delete == nil || c.Delete.AfterOp != after || c.Delete.Ref < 0 || c.Delete.Ref >= len(rn.w.Refs) {
+			return
+		}
+		if e.userDelete(c.Delete.Ref) {
+			deleted = c.Delete.Ref
+			rn.trace("  USER deletes %s %s", rn.w.Refs[deleted].Kind, rn.w.Refs[deleted].Name)
+		}
+	}
+	userDelete(0)
 	for k := range ops {
 		s := &ops[k]
 		rr := rn.ref(s)
@@ -935,6 +967,13 @@ func (rn *runner) runCycle(e *env, c *Case, ops []v1beta1.TrafficRoutingStrategy
 		}
 		now := e.views()
 		rn.traceViews(now)
+		if deleted >= 0 {
+			// the user changed the world: the "s alone on the untouched store" reference no longer applies
+			rn.r.Outcome("ensure-after-user-delete/" + errClass(last.Err))
+			userDelete(k + 1)
+			continue
+		}
+		userDelete(k + 1)
 		if rr.Res.Panic != nil {
 			continue
 		}
@@ -993,11 +1032,19 @@ func (rn *runner) runCycle(e *env, c *Case, ops []v1beta1.TrafficRoutingStrategy
 		return
 	}
 	rn.r.Outcome(fmt.Sprintf("finalise/modified=%v", f1.Done))
+	ctx := ""
+	if deleted >= 0 {
+		ctx = "/other-ref-deleted"
+		rn.r.Outcome(fmt.Sprintf("finalise-after-user-delete/ref#%d-of-%d/modified=%v", deleted, len(rn.w.Refs), f1.Done))
+	}
 	for i := range rn.w.Refs {
 		o, a := rn.orig[i], fin[i]
 		sc := scriptClass(rn.w.Refs[i])
+		if i == deleted {
+			continue // gone by the user's own act
+		}
 		if o.Exists != a.Exists {
-			rn.violate("C15/restore/"+sc+"/existence", fmt.Sprintf("%s %s existed=%v before, exists=%v after Finalise", rn.w.Refs[i].Kind, rn.w.Refs[i].Name, o.Exists, a.Exists), c)
+			rn.violate("C15/restore/"+sc+"/existence"+ctx, fmt.Sprintf("%s %s existed=%v before, exists=%v after Finalise", rn.w.Refs[i].Kind, rn.w.Refs[i].Name, o.Exists, a.Exists), c)
 			continue
 		}
 		if !o.Exists {
@@ -1005,18 +1052,25 @@ func (rn *runner) runCycle(e *env, c *Case, ops []v1beta1.TrafficRoutingStrategy
 		}
 		where := fmt.Sprintf("%s %s after %s + Finalise", rn.w.Refs[i].Kind, rn.w.Refs[i].Name, opsName(ops))
 		if _, left := a.Annotations[snapshotAn]; left {
-			rn.violate("C15/restore/"+sc+"/snapshot-annotation-left", where+": annotation "+snapshotAn+" is still present: "+lib.J(a.Annotations), c)
+			// the object was not given back at all: differences in spec / labels / annotations are consequences
+			if deleted >= 0 {
+				rn.violate("C15/restore/not-restored/other-ref-deleted", fmt.Sprintf("%s (the user deleted %s %s before): annotation %s is still present and spec=%s (original %s)",
+					where, rn.w.Refs[deleted].Kind, rn.w.Refs[deleted].Name, snapshotAn, a.Spec, o.Spec), c)
+			} else {
+				rn.violate("C15/restore/"+sc+"/snapshot-annotation-left", where+": annotation "+snapshotAn+" is still present: "+lib.J(a.Annotations)+" spec="+a.Spec, c)
+			}
+			continue
 		}
 		if o.Spec != a.Spec {
 			p, kind := diffKind("spec", specOf(o.obj), specOf(a.obj))
 			kind = coarseKind(kind)
-			rn.violate("C15/restore/"+sc+"/spec/"+kind, fmt.Sprintf("%s: spec differs at %s (%s)\n original: %s\n restored: %s", where, p, kind, o.Spec, a.Spec), c)
+			rn.violate("C15/restore/"+sc+"/spec/"+kind+ctx, fmt.Sprintf("%s: spec differs at %s (%s)\n original: %s\n restored: %s", where, p, kind, o.Spec, a.Spec), c)
 		}
 		if !sameStrMap(o.Labels, a.Labels) {
-			rn.violate("C15/restore/"+sc+"/labels", fmt.Sprintf("%s: labels differ\n original: %s\n restored: %s", where, lib.J(o.Labels), lib.J(a.Labels)), c)
+			rn.violate("C15/restore/"+sc+"/labels"+ctx, fmt.Sprintf("%s: labels differ\n original: %s\n restored: %s", where, lib.J(o.Labels), lib.J(a.Labels)), c)
 		}
 		if !sameStrMap(without(o.Annotations, snapshotAn), without(a.Annotations, snapshotAn)) {
-			rn.violate("C15/restore/"+sc+"/annotations", fmt.Sprintf("%s: annotations differ\n original: %s\n restored: %s", where, lib.J(o.Annotations), lib.J(a.Annotations)), c)
+			rn.violate("C15/restore/"+sc+"/annotations"+ctx, fmt.Sprintf("%s: annotations differ\n original: %s\n restored: %s", where, lib.J(o.Annotations), lib.J(a.Annotations)), c)
 		}
 	}
 	// C07-O3 for Finalise: the second call returns false and writes nothing
@@ -1140,6 +1194,10 @@ d.labels["canary"] = "true"`},
 	{"drop-all", `d.labels = nil`},
 	{"change-user", `if d.labels ~= nil and d.labels["app"] ~= nil then d.labels["app"] = "canary" end`},
 	{"empty-table", `d.labels = {}`},
+	// STEP-DEPENDENT keys: which keys exist depends on the step, so a later step must remove what an earlier one set
+	{"step-keys", `if d.labels == nil then d.labels = {} end
+if obj.matches ~= nil and next(obj.matches) ~= nil then d.labels["demo-by-header"] = "true" end
+if obj.canaryWeight ~= -1 then d.labels["demo-weight"] = tostring(obj.canaryWeight) end`},
 }
 
 var annotationActions = []action{
@@ -1148,6 +1206,9 @@ var annotationActions = []action{
 d.annotations["canary-weight"] = tostring(obj.canaryWeight)`},
 	{"drop-all", `d.annotations = nil`},
 	{"remove-user", `if d.annotations ~= nil then d.annotations["a"] = nil end`},
+	{"step-keys", `if d.annotations == nil then d.annotations = {} end
+if obj.matches ~= nil and next(obj.matches) ~= nil then d.annotations["demo/by-header"] = "true" end
+if obj.canaryWeight ~= -1 then d.annotations["demo/weight"] = tostring(obj.canaryWeight) end`},
 }
 
 type script struct{ name, code string }
@@ -1320,6 +1381,8 @@ func istioWorlds(th bool) []*World {
 				Refs: []v1beta1.ObjectRef{vsRef("vs"), vsRef("vs2")}, Stable: stableSvc, Canary: canarySvc})
 			out = append(out, &World{ID: id("vs+missing-dr"), Objects: []map[string]interface{}{vs()},
 				Refs: []v1beta1.ObjectRef{vsRef("vs"), drRef("nope")}, Stable: stableSvc, Canary: stableSvc})
+			out = append(out, &World{ID: id("missing-dr+vs"), Objects: []map[string]interface{}{vs()},
+				Refs: []v1beta1.ObjectRef{drRef("nope"), vsRef("vs")}, Stable: stableSvc, Canary: stableSvc})
 			out = append(out, &World{ID: id("dr-basic+vs"), Objects: []map[string]interface{}{mkObject(istioAV, "DestinationRule", "dr", lab, ann, drSpecs[0]), vs()},
 				Refs: []v1beta1.ObjectRef{drRef("dr"), vsRef("vs")}, Stable: stableSvc, Canary: stableSvc})
 		}
@@ -1350,12 +1413,12 @@ func genericWorlds(th bool) []*World {
 		}
 	}
 	if th {
-		// every script of the grammar × (first four spec shapes × 10 meta modes (3×3 + clash/clash)  ∪  every other spec shape × one
+		// every script of the grammar × (first three spec shapes × 10 meta modes (3×3 + clash/clash)  ∪  every other spec shape × one
 		// diagonal meta mode, rotating): label / annotation actions do not look at the spec, spec actions not at metadata
 		for si, spc := range specs {
 			for l := range labelModes {
 				for a := range annotationModes {
-					if si >= 4 && (l != a || l != si%3) {
+					if si >= 3 && (l != a || l != si%3) {
 						continue
 					}
 					if (l == 3) != (a == 3) {
@@ -1364,6 +1427,9 @@ func genericWorlds(th bool) []*World {
 					for s := range specActions {
 						for la := range labelActions {
 							for aa := range annotationActions {
+								if labelActions[la].name == "empty-table" && (s != 0 || aa != 0) {
+									continue // same JSON as drop-all after the bridge: only on its own
+								}
 								add(one(spc, l, a, mkScript(s, la, aa)))
 							}
 						}
@@ -1387,7 +1453,7 @@ func genericWorlds(th bool) []*World {
 		for aa := 1; aa < len(annotationActions); aa++ {
 			scripts = append(scripts, mkScript(0, 0, aa))
 		}
-		scripts = append(scripts, mkScript(3, 1, 1), mkScript(1, 2, 2))
+		scripts = append(scripts, mkScript(3, 1, 1), mkScript(1, 2, 2), mkScript(1, 5, 4))
 		for _, spc := range specs[:3] {
 			for l := range labelModes {
 				for a := range annotationModes {
@@ -1400,7 +1466,7 @@ func genericWorlds(th bool) []*World {
 	}
 	// (C) two refs: same kind (one script, two differently shaped objects) and two kinds (two scripts)
 	multiSpecs := specs[:3]
-	multiScripts := []script{mkScript(0, 0, 0), mkScript(3, 1, 1), mkScript(1, 2, 2), mkScript(5, 3, 3)}
+	multiScripts := []script{mkScript(0, 0, 0), mkScript(3, 1, 1), mkScript(1, 2, 2), mkScript(5, 3, 3), mkScript(0, 5, 4)}
 	if th {
 		multiSpecs = specs
 		multiScripts = nil
@@ -1419,6 +1485,12 @@ func genericWorlds(th bool) []*World {
 						mkObject(genericAV, "Widget", "w2", labelModes[(m+1)%3], annotationModes[(m+2)%3], rich)},
 					Scripts: map[string]string{cmKey("Widget", genericAV): sc.code},
 					Refs:    []v1beta1.ObjectRef{widgetRef("w1"), widgetRef("w2")}, Stable: stableSvc, Canary: canarySvc,
+				})
+				add(&World{
+					ID:      fmt.Sprintf("generic2/missing-first/spec=%s/meta=%d/script=%s", spc.name, m, sc.name),
+					Objects: []map[string]interface{}{mkObject(genericAV, "Widget", "w1", labelModes[m], annotationModes[m], spc)},
+					Scripts: map[string]string{cmKey("Widget", genericAV): sc.code},
+					Refs:    []v1beta1.ObjectRef{widgetRef("nope"), widgetRef("w1")}, Stable: stableSvc, Canary: canarySvc,
 				})
 				add(&World{
 					ID: fmt.Sprintf("generic2/two-kinds/spec=%s/meta=%d/script=%s", spc.name, m, sc.name),
@@ -1478,13 +1550,14 @@ func Run(r *lib.Report) {
 	}
 	deadline := time.Now().Add(budget)
 	r.Rule = "worlds = (Istio VirtualService specs built from a 13-rule alphabet [all singles, ordered pairs, thorough: triples] + tcp/tls/empty variants) × " +
-		"label/annotation modes (absent/empty/set/clash) × ref sets ([VS]; [VS,DR×4 shapes] in subset mode; [VS,VS2]; [VS,missing]; [DR,VS]) with the built-in scripts, " +
+		"label/annotation modes (absent/empty/set/clash) × ref sets ([VS]; [VS,DR×4 shapes] in subset mode; [VS,VS2]; [VS,missing]; [missing,VS]; [DR,VS]) with the built-in scripts, " +
 		"plus generic Widget objects from a nested-spec generator (scalars incl. null/big int, empty maps/lists, depth<=3, absent/non-map spec) × meta modes × " +
-		"every script of the grammar {6 spec actions}×{5 label actions}×{4 annotation actions} (quick: one action dimension at a time + combinations) delivered through the ConfigMap, 1-2 refs. " +
+		"every script of the grammar {6 spec actions}×{6 label actions}×{5 annotation actions} (incl. actions writing STEP-DEPENDENT label/annotation keys) (quick: one action dimension at a time + combinations) delivered through the ConfigMap, 1-2 refs. " +
 		"Per world: each of the 8 strategies alone (reference state, Istio oracles, C07-O3 fixed point), then EVERY sequence of length 0..3 over the first 4 (thorough, Istio worlds: 6) strategies " +
 		"(one real EnsureRoutes call per element) followed by Finalise twice, " +
 		"for sequences of length 1..2 the same again with the last strategy iterated to its fixed point before Finalise, " +
-		"and for sequences of length 1 the same again as two consecutive cycles (history, Finalise, history, Finalise) on one store. " +
+		"for sequences of length 1 the same again as two consecutive cycles (history, Finalise, history, Finalise) on one store, " +
+		"and in multi-ref worlds, for sequences of length 1..2 and every existing ref, the same with that ref DELETED BY THE USER before Finalise (thorough: also between the two steps). " +
 		"evaluation = one (world, sequence, variant); non-trivial = the provider wrote to the store during the history; distinct = distinct (world, sequence, variant)"
 	r.Assumptions = []string{
 		"labels/annotations: an empty map and an absent map are the same configuration (API server semantics) and compare equal",
@@ -1494,6 +1567,7 @@ func Run(r *lib.Report) {
 		"Istio split oracle is judged on rules WITHOUT their own `match` whose only destination is the stable Service, for steps with traffic and without matches (API: matches take precedence); rules with their own match are left alone by the script's documented design and are only observed",
 		"Istio 'other host' = no destination of the rule denotes the stable Service of the rollout namespace (short name, name.ns, name.ns.svc[.cluster.local]); 'untouched' is compared modulo {} == [] == null == absent because the Lua bridge cannot represent empty collections",
 		"the same object is never referenced twice in one ref list",
+		"a ref deleted by the user during the history is not judged itself; after the deletion EnsureRoutes calls are only observed (the untouched-store reference no longer applies); every remaining ref must be restored exactly by Finalise (signatures end in /other-ref-deleted)",
 		"fake client = controller-runtime v0.14.6 fake with unstructured objects (no admission, no pruning)",
 		"the Lua VM's 1 s deadline is real time; no script of this domain loops, so a `context deadline exceeded` is machine overload: the case is re-executed (4 tries) and otherwise reported as not judged (exhaustive=false), never as a verdict",
 	}
@@ -1530,6 +1604,7 @@ func Run(r *lib.Report) {
 	type variant struct {
 		conv   bool
 		cycles int
+		del    *DeleteOp
 	}
 	lib.ParallelFor(len(jobs), func(j int) {
 		w := jobs[j].w
@@ -1578,23 +1653,38 @@ func Run(r *lib.Report) {
 			for k, i := range sq {
 				ops[k] = all[i]
 			}
-			variants := []variant{{false, 1}}
+			variants := []variant{{false, 1, nil}}
 			if len(sq) == 1 || len(sq) == 2 {
-				variants = append(variants, variant{true, 1})
+				variants = append(variants, variant{true, 1, nil})
 			}
 			if len(sq) == 1 {
-				variants = append(variants, variant{false, 2})
+				variants = append(variants, variant{false, 2, nil})
+			}
+			// the user deletes one (existing) ref of a multi-ref world: right before Finalise for histories of length
+			// 1..2, thorough also between the two steps of a length-2 history
+			if len(w.Refs) > 1 && (len(sq) == 1 || len(sq) == 2) {
+				for ri := range w.Refs {
+					if !rn.orig[ri].Exists {
+						continue
+					}
+					variants = append(variants, variant{false, 1, &DeleteOp{Ref: ri, AfterOp: len(sq)}})
+					if th && len(sq) == 2 {
+						variants = append(variants, variant{false, 1, &DeleteOp{Ref: ri, AfterOp: 1}})
+					}
+				}
 			}
 			for _, v := range variants {
 				var wrote bool
 				attempt(func() {
-					if p := lib.Catch(func() { wrote = rn.runHistory(ops, v.conv, v.cycles) }); p != nil {
-						r.Violate("C15/harness/panic-in-check", p.Value+"\n"+firstStack(p.Stack), rn.mkCaseN(ops, v.conv, false, v.cycles))
+					if p := lib.Catch(func() { wrote = rn.runHistory(ops, v.conv, v.cycles, v.del) }); p != nil {
+						c := rn.mkCaseN(ops, v.conv, false, v.cycles)
+						c.Delete = v.del
+						r.Violate("C15/harness/panic-in-check", p.Value+"\n"+firstStack(p.Stack), c)
 					}
 				})
 				n++
 				if wrote {
-					r.Nontrivial(fmt.Sprintf("%s|%v|%v|%d", w.ID, sq, v.conv, v.cycles))
+					r.Nontrivial(fmt.Sprintf("%s|%v|%v|%d|%s", w.ID, sq, v.conv, v.cycles, lib.J(v.del)))
 				}
 			}
 		}
@@ -1671,7 +1761,7 @@ func Replay(r *lib.Report, raw json.RawMessage) {
 			rn.ref(&c.Ops[i])
 		}
 	} else {
-		if p := lib.Catch(func() { rn.runHistory(c.Ops, c.Converge, c.Cycles) }); p != nil {
+		if p := lib.Catch(func() { rn.runHistory(c.Ops, c.Converge, c.Cycles, c.Delete) }); p != nil {
 			fmt.Println("check panicked:", p.Value)
 		}
 	}
